@@ -380,6 +380,9 @@ pub enum RpcAttack {
     Mutated(Vec<u16>),
     /// A valid request followed by trailing bytes.
     Trailing(u8),
+    /// A well-formed request padded with an unknown field to one byte above the handler's size limit:
+    /// acceptable to the decoder, so only the size check can refuse it.
+    PaddedOversize,
 }
 
 #[derive(Debug, Clone, Serialize, Deserialize, Hash)]
@@ -403,6 +406,7 @@ fn gen_rpc(ch: &mut Choices) -> RpcCase {
                 3 => RpcAttack::Empty,
                 4 | 5 => RpcAttack::Mutated((0..40).map(|_| ch.raw()).collect()),
                 6 => RpcAttack::Trailing(1 + ch.below(9) as u8),
+                7 if ch.bool() => RpcAttack::PaddedOversize,
                 _ => RpcAttack::Valid,
             };
             (cons, a)
@@ -496,6 +500,17 @@ fn check_rpc(case: &RpcCase, st: &mut Stats) -> Result<(), String> {
                         let ok = w.reencode(&m).is_ok() && m.len() <= if *cons { 100 * 1024 } else { 1024 };
                         (framed(&m), Some(ok))
                     }
+                    RpcAttack::PaddedOversize => {
+                        let limit = if *cons { 100 * 1024 } else { 1024 };
+                        let mut m = valid.clone();
+                        // unknown field 15, LEN: tag 0x7a, 3-byte varint length
+                        let pad = limit + 1 - m.len() - 4;
+                        m.push(0x7a);
+                        m.extend([(pad & 0x7f) as u8 | 0x80, ((pad >> 7) & 0x7f) as u8 | 0x80, (pad >> 14) as u8]);
+                        m.extend(vec![0u8; pad]);
+                        assert_eq!(m.len(), limit + 1);
+                        (framed(&m), Some(false))
+                    }
                     RpcAttack::Trailing(n) => {
                         let mut v = framed(&valid);
                         v.extend(vec![0xee; *n as usize]);
@@ -529,6 +544,7 @@ fn check_rpc(case: &RpcCase, st: &mut Stats) -> Result<(), String> {
                     RpcAttack::Valid => "valid",
                     RpcAttack::Mutated(_) => if is_valid == Some(true) { "mutated_still_valid" } else { "mutated_invalid" },
                     RpcAttack::Trailing(_) => "trailing_bytes",
+                    RpcAttack::PaddedOversize => "well_formed_but_one_byte_over_the_limit",
                 }));
                 drop(s);
             }
